@@ -14,7 +14,8 @@ RULE = ("a case is (array_len 1..40, item_size 1..9, items_per_file 1..array_len
         "history up to 25 (quick) / 40 (thorough) steps) drawn by Hypothesis; operations: get/set by index in and out of range "
         "(negative too), slice get/set/delete with arbitrary start/stop/step, short/long value lists, invalid items (oversized, "
         "str, int, None, list) alone and in the middle of a slice value list, del, clear, iteration, `in`, len, close+open, "
-        "use-after-close, context-manager exit. Oracle: list-of-padded-items model compared after every step (full read after "
+        "use-after-close, context-manager exit, an iterator kept alive across other operations (compared step by step with a list iterator "
+        "over the model). Oracle: list-of-padded-items model compared after every step (full read after "
         "every failing op) plus the directory invariant. Non-trivial = history has a reopen and a negative-index or slice op on "
         "an array whose length is not a multiple of the chunk size; distinct = distinct (parameters, history).")
 ASSUMPTIONS = ["a refusal is any raised exception (IndexError / ValueError / TypeError in practice)",
@@ -192,6 +193,22 @@ class Run:
             got = list(a)
             if got != m:
                 self.fail(k, "iteration differs from the model", "iter")
+        elif t in ("it_new", "it_next"):
+            # an iterator kept alive across other operations: a list iterator is live (it sees writes to items it has not
+            # reached yet); the model is Python's own list iterator over the model list
+            if t == "it_new" or getattr(self, "it", None) is None:
+                self.it, self.mit, self.it_pos = iter(a), iter(m), 0
+            if t == "it_next":
+                end = object()
+                for _ in range(op[1]):
+                    got, want = next(self.it, end), next(self.mit, end)
+                    if (got is end) != (want is end) or (got is not end and got != want):
+                        self.fail(k, "a live iterator yields %r as item %d, a list iterator over the model yields %r" % (
+                            None if got is end else got, self.it_pos, None if want is end else want), "iter:live")
+                    self.it_pos += 1
+                    if got is end:
+                        self.it = None
+                        break
         elif t == "contains":
             v = B(op[1])
             got = v in a
@@ -210,12 +227,15 @@ class Run:
             if len(a) != n or a.item_size != self.item:
                 self.fail(k, "len %d / item_size %d, expected %d / %d" % (len(a), a.item_size, n, self.item), "len")
         elif t == "reopen":
+            self.it = None   # an iterator does not outlive the object it was taken from
             self.reopen()
             self.full_read(k, "after_reopen")
         elif t == "closed":
+            self.it = None
             self.closed_ops(k)
             self.full_read(k, "after_closed_ops")
         elif t == "ctx":
+            self.it = None
             from data_persistence.persistent_array import SPFLBArray
             with a as aa:
                 if aa[0] != m[0]:
@@ -297,7 +317,7 @@ def st_slice(draw, n):
 def st_op(draw, n, item):
     t = draw(st.sampled_from(["get", "get", "get", "set", "set", "set", "getslice", "getslice", "setslice", "setslice", "setslice",
                               "del", "delslice", "clear", "iter", "contains", "contains_straddle", "len", "reopen", "reopen", "closed", "ctx", "sync",
-                              "setslice_noniter"]))
+                              "setslice_noniter", "it_new", "it_next", "it_next", "it_next"]))
     idx = st.one_of(st.integers(-n, n - 1), st.integers(-n - 3, n + 2), st.sampled_from([-1, -n, 0, n - 1, n, -n - 1]))
     if t == "get":
         return ["get", draw(idx)]
@@ -314,6 +334,8 @@ def st_op(draw, n, item):
         return ["del", draw(idx)]
     if t == "delslice":
         return ["delslice", draw(st_slice(n))]
+    if t == "it_next":
+        return ["it_next", draw(st.integers(1, 4))]
     if t == "contains_straddle":
         return ["contains_straddle", draw(st.integers(0, 60)), draw(st.integers(0, 8))]
     if t == "contains":
@@ -390,6 +412,10 @@ def classes_of(c):
         out.append("has_negative_index")
     if sl:
         out.append("has_slice_op")
+    kinds = [o[0] for o in c["ops"]]
+    first_it = next((i for i, t in enumerate(kinds) if t in ("it_new", "it_next")), None)
+    if first_it is not None and any(t in ("set", "setslice", "del", "delslice", "clear") for t in kinds[first_it + 1:]) and "it_next" in kinds[first_it + 1:]:
+        out.append("iterator_alive_across_write")
     if any(o[0] == "setslice" and any(not value_valid(v, c["item"]) for v in o[2]) for o in c["ops"]):
         out.append("has_invalid_in_slice_values")
     # negative-index read right after a reopen (the shape that exposed the negative-index defect)
